@@ -77,4 +77,9 @@ def frontend_model(ctx):
     ra = tlc.run_tlc("FrontEnd", "MC_FrontEnd_asfound.cfg", timeout=300)
     if ra.violation != "InitAtMostOnce":
         raise Inconclusive("vacuity guard: InitAtMostOnce not violated by the front end as found (got %s)" % ra.violation)
-    log("E1 FrontEnd: %d distinct states; as-found variant violates InitAtMostOnce" % r.distinct)
+    ok, nobl, out = tlc.tlapm("FrontEndProof", timeout=600)
+    if not ok:
+        raise Inconclusive("TLAPS could not prove spec/FrontEndProof.tla: " + out[-800:])
+    ctx.coverage["tlaps_obligations_proved"] = ctx.coverage.get("tlaps_obligations_proved", 0) + nobl
+    log("E1 FrontEnd: %d distinct states; as-found variant violates InitAtMostOnce; TLAPS: InitAtMostOnce and InvokeAfterInit "
+        "inductive for any number of requests (%d obligations)" % (r.distinct, nobl))
